@@ -786,6 +786,11 @@ func run(c *vf.Ctx) {
 			p.NVersions = 40 + rng.IntN(21)
 		}
 		h := bpgen.GenHistory(rng, p)
+		if i%11 == 6 { // drain one region of a height-2 tree under frequent saves and prunes
+			h = bpgen.GenDrainHistory(rng, 1100+rng.IntN(700))
+			p = h.Params
+			c.Count("drain_histories", 1)
+		}
 		cf := cfg{Cache: caches[(i/int(bpgen.NumModes))%len(caches)], Fast: (i/3)%2 == 0, Backend: "memdb"}
 		if i%12 == 5 && !p.Deep { // on-disk DB with a real close/reopen; short histories (every access is a disk read)
 			cf.Backend = "goleveldb"
@@ -872,6 +877,7 @@ func run(c *vf.Ctx) {
 		c.RequireCounter("event_"+ev, 1)
 	}
 	c.RequireCounter("histories_reaching_height_3", 1)
+	c.RequireCounter("drain_histories", 2)
 	c.RequireCounter("saved_version_rereads", 1000)
 	c.RequireCounter("absent_key_probes", 1000)
 	for k := range agg.bad {
